@@ -324,6 +324,10 @@ def replay_case(arg):
         exp_wid = [(i + ' ' + nm) if i != 'None' else nm for i, nm in zip(rec['ids'], rec['names'])]
         if list(wid) != exp_wid:
             fail('NamesIds', 'names_with_ids', dict(got=wid, expected=exp_wid))
+        # both optional flags at once: the population-level names, each with the ID of ITS position (none)
+        wid_top = hll.get_parameter_names(exclude_bottom_level=True, include_ids=True)
+        if list(wid_top) != exp_wid[rec['nbottom']:]:
+            fail('NamesIds', 'top_names_with_ids', dict(got=wid_top, expected=exp_wid[rec['nbottom']:]))
         sd = pop.get_special_dims()[0]
         got_sd = [[int(e[0]), int(e[1]), int(e[2]), int(e[3]), bool(e[4])] for e in sd]
         if got_sd != [list(e) for e in rec['special']]:
